@@ -26,6 +26,8 @@ inductive Step
   | peerCloseNotify
   /-- the transport ended: at a record boundary (`inside = false`) or inside a record -/
   | transportEnd (inside : Bool)
+  /-- a record that is not the peer's (garbage, injected plaintext) arrived -/
+  | forgery
   | other
   | call (k : Kind) (nonEmpty : Bool) (o : Outcome)
 deriving Repr, DecidableEq
@@ -41,6 +43,7 @@ structure St where
   sawCloseNotify : Bool := false
   endedClean : Bool := false
   endedInside : Bool := false
+  forged : Bool := false
   /-- bytes the peer wrote before it closed / the stream ended -/
   owed : Bytes := []
   delivered : Bytes := []
@@ -50,7 +53,8 @@ structure St where
 def check : St → List Step → Option (String × String)
   | _, [] => none
   | s, .peerData b :: rest =>
-    check (if s.sawCloseNotify || s.endedClean || s.endedInside then s else { s with owed := s.owed ++ b }) rest
+    check (if s.sawCloseNotify || s.endedClean || s.endedInside || s.forged then s else { s with owed := s.owed ++ b }) rest
+  | s, .forgery :: rest => check { s with forged := true } rest
   | s, .peerCloseNotify :: rest => check { s with sawCloseNotify := true } rest
   | s, .transportEnd inside :: rest =>
     check (if inside then { s with endedInside := true } else { s with endedClean := true }) rest
@@ -65,6 +69,8 @@ def check : St → List Step → Option (String × String)
         some ("sticky-read", "a Read after a failed Read succeeded or delivered bytes")
       else if ne && s.hsFailed && (!failed || !o.data.isEmpty) then
         some ("sticky-handshake", "a Read after a failed handshake succeeded")
+      else if !(s.delivered ++ o.data).isPrefixOf s.owed then
+        some ("data-after-damage", "bytes were delivered that the peer did not write before its stream closed, ended or was damaged")
       else if o.err == "eof" && !s.sawCloseNotify && !s.endedClean then
         some ("eof-in-record", "end-of-stream reported without close_notify and without a clean transport end")
       else if o.err == "eof" && !s.eofSeen && s.delivered ++ o.data != s.owed then
@@ -73,6 +79,9 @@ def check : St → List Step → Option (String × String)
         check { s with readFailed := s.readFailed || (ne && failed), delivered := s.delivered ++ o.data,
                        eofSeen := s.eofSeen || o.err == "eof" } rest
     | .write =>
+      -- a failed write has consumed a sequence number and possibly put part of a record on the
+      -- wire: whatever the cause (also a write deadline), the write side is dead afterwards
+      let failed := o.err != ""
       if s.closed && !failed then some ("write-after-close", "a Write after Close succeeded")
       else if s.writeShut && !failed then some ("write-after-closewrite", "a Write after CloseWrite succeeded")
       else if s.writeFailed && !failed then some ("sticky-write", "a Write after a failed Write succeeded")
